@@ -336,7 +336,7 @@ def scripts(ctx):
     """(n, script) pairs: exhaustive part."""
     out = []
     if ctx.thorough:
-        plans = [('SR', 12), ('SRC', 9), ('SRCO', 6)]
+        plans = [('SR', 11), ('SRC', 8), ('SRCO', 6)]
     else:
         plans = [('SR', 9), ('SC', 7), ('SRCO', 4)]
     seen = set()
@@ -355,9 +355,9 @@ def run(ctx: lib.Ctx) -> None:
     import pytezos.rpc.node as node_mod
 
     ctx.rule = ('exhaustive: every outcome script over {Success, RpcError} up to length 9, {Success, transport error} up to 7 and '
-                '{Success, RpcError, transport error, other exception} up to length 4 (thorough: 2 outcomes up to 12, 3 up to 9, 4 up to 6) '
+                '{Success, RpcError, transport error, other exception} up to length 4 (thorough: 2 outcomes up to 11, 3 up to 8, 4 up to 6) '
                 'for 1..4 nodes with distinct addresses, per-node RpcNode.request stubbed (node identified by object position); the same over 8 node lists '
-                'that repeat an address (e.g. a,a,b / a,b,a,c) with scripts up to length 8 (thorough 11); the client driven through every public entry point '
+                'that repeat an address (e.g. a,a,b / a,b,a,c) with scripts up to length 8 (thorough 10); the client driven through every public entry point '
                 '(request/get/post/put/delete, mixed, uniform, and one odd call among requests) with pytezos.rpc.node.requests stubbed and the target of EVERY HTTP request read off the URL, incl. nodes answering transient 5xx through all retries, and with the clocks stubbed and pauses of 0 s .. 1 day between requests; plus random scripts of length 11..60 for 1..7 nodes and pairs of '
                 'clients used alternately. non-trivial = at least one failing outcome before the last request and n >= 2; '
                 'distinct = distinct (n, script)')
@@ -384,7 +384,7 @@ def run(ctx: lib.Ctx) -> None:
     patterns = [(0, 0), (0, 0, 1), (0, 1, 0), (0, 1, 1), (0, 1, 0, 2), (0, 0, 1, 1), (0, 1, 2, 0), (0, 0, 0, 1)]
     for pat in patterns:
         n = len(pat)
-        for alpha, maxlen in ([('SR', 8), ('SRCO', 3)] if not ctx.thorough else [('SR', 11), ('SRCO', 6)]):
+        for alpha, maxlen in ([('SR', 8), ('SRCO', 3)] if not ctx.thorough else [('SR', 10), ('SRCO', 4)]):
             for ln in range(n, maxlen + 1):
                 for tup in itertools.product(alpha, repeat=ln):
                     add(n, tup, run_impl(n, tup, ctx.rng, node_mod, pat), f'repeated-address:n{n}')
@@ -403,11 +403,11 @@ def run(ctx: lib.Ctx) -> None:
         meta.append((n, script, obs[:5] + (resolved, pauses)))
 
     for n in (1, 2, 3, 4):
-        for ln in range(1, ctx.n(4, 6) + 1):                       # mixed entry points
+        for ln in range(1, ctx.n(4, 5) + 1):                       # mixed entry points
             for tup in itertools.product('SRCO', repeat=ln):
                 add_wire(n, tup, [ctx.rng.choice(ENTRIES) for _ in tup], 'wire:mixed')
     for n in (2, 3, 4):                                           # node answers: persistent transient 5xx, transient then ok, permanent 5xx / 4xx / 401 / 404
-        for ln in range(1, ctx.n(4, 6) + 1):
+        for ln in range(1, ctx.n(4, 5) + 1):
             for tup in itertools.product('STtR', repeat=ln):
                 if 'T' in tup or 't' in tup:
                     add_wire(n, tup, [ctx.rng.choice(ENTRIES) for _ in tup], 'wire:http-responses')
